@@ -101,7 +101,7 @@ def tie(tier, seed):
     items = items_for(tier, seed)
     out, errors = par.run(items, export_item)
     agree = total = skipped = 0
-    thm_yes = thm_no = thm_other = closing = 0
+    thm_yes = thm_no = thm_other = closing = rl_yes = 0
     wf_yes = wf_no_block_preds = wf_no_other = 0
     wf_unmet = []
     cons_yes = cons_no = 0
@@ -131,6 +131,8 @@ def tie(tier, seed):
                     thm_other += 1
                 elif x[3] == 3:
                     closing += 1
+                elif x[3] == 7:
+                    rl_yes += 1
                 else:
                     thm_no += 1
                     if len(thm_unmet) < 4:
@@ -164,6 +166,7 @@ def tie(tier, seed):
             "single_successor_insertions_meeting_path_theorem_hypotheses": thm_yes,
             "single_successor_insertions_not_meeting_them": thm_no, "unmet_examples": thm_unmet,
             "closings_meeting_the_hypotheses_of_the_closing_theorem": closing,
+            "region_predecessor_insertions_validated_on_the_leaf_graphs": rl_yes,
             "other_insertions": thm_other,
             "calls_meeting_consistency_theorem_conditions": wf_yes,
             "block_predecessor_calls_not_meeting_them": wf_no_block_preds, "consistency_unmet_examples": wf_unmet,
